@@ -12,6 +12,8 @@ import Bermuda.Lemmas.UnitsAggregate
 import Bermuda.Lemmas.UnitsRoundtrip
 import Bermuda.Lemmas.UnitsExample
 import Bermuda.Lemmas.UnitsCovered
+import Bermuda.Lemmas.UnitsCoveredCont
+import Bermuda.Lemmas.UnitsGreedy
 import Bermuda.Spec.C18
 namespace Bermuda.Properties.C18
 open Bermuda Bermuda.Units Bermuda.Spec.C18
@@ -155,6 +157,35 @@ theorem currency_spec_bridge {t out : List Cell} {target : String} {rates : List
     obtain ⟨o, ho, hco⟩ := h3.mem_left (h1.mem_iff.mpr hc)
     exact ⟨o, h2.mem_iff.mp ho, convRel_of_converted (hkn c hc) hco⟩
 
+/-- **currency_spec_bridge_sorted.** The executable predicate holds on the model's own output for every
+sorted triangle (`Triangle(...)` order) with canonical metadata, pairwise distinct cell coordinates BEFORE the
+conversion and distinct-key value dicts — cells of different currency slices MAY land on one position after
+the conversion (twin slices; `hpos` of `currency_spec_bridge` is not needed): the greedy `matchAll` still
+succeeds because the stable sort keeps colliding cells in their input order. -/
+theorem currency_spec_bridge_sorted {t out : List Cell} {target : String} {rates : List (String × Num)}
+    (hkn : ∀ c ∈ t, (c.values.map (·.1)).Nodup) (hs : t.Pairwise (fun a b => Cell.le a b = true))
+    (hc : ∀ c ∈ t, c.md.Canon) (hn : (t.map Cell.coord).Nodup)
+    (h : convertCurrency t target rates = .ok out) :
+    currencySpec moneyFields target (rates.map fun p => (p.1, p.2.toRat)) t out = true := by
+  unfold currencySpec
+  simp only [Bool.and_eq_true, Bool.not_eq_eq_eq_not, Bool.not_true, beq_iff_eq, List.all_eq_true]
+  refine ⟨⟨⟨?_, currency_count h⟩, fun o ho => currency_sets_target h o ho⟩,
+    matchAll_convert_sorted hkn hs hc hn h⟩
+  by_contra hm
+  have hm' : currencyMustRefuse target (rates.map fun p => (p.1, p.2.toRat)) t = true := by
+    simpa using hm
+  unfold currencyMustRefuse at hm'
+  rw [List.any_eq_true] at hm'
+  obtain ⟨c, hc', hbad⟩ := hm'
+  cases hcur : c.md.currency with
+  | none =>
+    obtain ⟨e, he⟩ := currency_refuses_missing_currency (target := target) (rates := rates) hc' hcur
+    rw [h] at he; cases he
+  | some cur =>
+    simp only [hcur, Bool.and_eq_true, bne_iff_ne, ne_eq, Bool.not_eq_eq_eq_not, Bool.not_true] at hbad
+    obtain ⟨e, he⟩ := currency_refuses_missing_rate (rates := rates) hc' hcur hbad.1 (any_rates_false hbad.2)
+    rw [h] at he; cases he
+
 /-- non-vacuity: a one-cell EUR triangle converted to USD at 5/4 — the loss is multiplied, the
 claim count is not, the currency is set -/
 def exMd (cur : String) : Metadata := { currency := some cur }
@@ -174,7 +205,7 @@ open Bermuda.Units.Example in
 that differ only in the currency land on the same position after conversion. The code keeps BOTH cells
 (the result is a triangle with duplicate cells — `Triangle(...)` only warns), each converted or kept as
 `currency_spec` says (which has no such hypothesis), the count is unchanged, and the executable predicate
-is true on this output; only the general bridge proof (greedy `matchAll`) assumes distinct positions. -/
+is true on this output (an instance of `currency_spec_bridge_sorted`, which needs no `hpos`). -/
 theorem currency_twin_slices :
     ¬ (twinT.map (posAfter "USD")).Nodup ∧
     convertCurrency twinT "USD" [("EUR", .flt (5/4))] = .ok twinOut ∧
@@ -184,6 +215,12 @@ theorem currency_twin_slices :
       simp only [twinT, List.map] at h
       exact (List.nodup_cons.mp h).1 (List.mem_singleton.mpr (by decide +kernel)),
     twin_convert, rfl, twin_spec⟩
+
+open Bermuda.Units.Example in
+/-- non-vacuity of `currency_spec_bridge_sorted` ON a twin: every hypothesis holds for `twinT` -/
+example : currencySpec moneyFields "USD" [("EUR", 5/4)] twinT twinOut = true :=
+  currency_spec_bridge_sorted (rates := [("EUR", .flt (5/4))]) (by decide +kernel) (by decide +kernel)
+    (by decide +kernel) (by decide +kernel) twin_convert
 
 /-! ### 2. disaggregate_experience -/
 
@@ -569,6 +606,26 @@ theorem policyYear_conserves_reached {t out : List Cell} {len : Nat} {origin : D
       total (t.filter fun c => toPolicy c.md == m' && c.ev == d) f i :=
   policyYear_conserves h ((policyYear_covered_iff hlen origin cont).mpr hreach) hu m' d f i
 
+/-- **policyYear_covered_of_continuous.** With `continuous_issuance=True` the share-table contract
+holds for EVERY policy-year origin and every policy length ≥ 1, on month-aligned accident periods
+(`Units.MonthAligned`: every period starts on the first of a real month from 1971 on and ends on a real
+date not before its start): the policy years of `policy_years_covered` — the
+`while py_start < last_end` loop with `add_months(s, 12)`, whatever the origin's day — tile the months
+from the first period start to the last period end, so every period start lies in a written month of
+some policy year. (An impossible origin date makes `policy_years_covered` raise; nothing to conserve.) -/
+theorem policyYear_covered_of_continuous {t : List Cell} {len : Nat} (hlen : 1 ≤ len) (origin : Date)
+    (hdom : MonthAligned t) : policyCovered t len origin true = true :=
+  policyCovered_of_continuous hlen origin hdom
+
+/-- **policyYear_conserves_continuous.** Conservation with input-level hypotheses only: continuous
+issuance, policy length ≥ 1, month-aligned accident periods, one shape per field within a slice. -/
+theorem policyYear_conserves_continuous {t out : List Cell} {len : Nat} {origin : Date}
+    (h : aqToPolicyYear t len origin true = .ok out) (hlen : 1 ≤ len) (hdom : MonthAligned t)
+    (hu : UniformShapes t) (m' : Metadata) (d : Date) (f : String) (i : Nat) :
+    total (out.filter fun o => o.md == m' && o.ev == d) f i =
+      total (t.filter fun c => toPolicy c.md == m' && c.ev == d) f i :=
+  policyYear_conserves h (policyYear_covered_of_continuous hlen origin hdom) hu m' d f i
+
 /-- every cell of the result is a `CumulativeCell` -/
 theorem policyYear_kind {t out : List Cell} {len : Nat} {origin : Date} {cont : Bool}
     (h : aqToPolicyYear t len origin cont = .ok out)
@@ -629,6 +686,7 @@ example : aqToPolicyYear [exQ1] 12 (Date.mk 2020 1 1) true =
     .ok [{ exQ1 with ps := Date.mk 2020 1 1, pe := Date.mk 2020 12 31, values := [("paid_loss", Val.flt 100)], md := { riskBasis := some "Policy" } }] := by
   decide +kernel
 example : UniformShapes [exQ1] := ⟨fun _ _ => none, by decide⟩
+example : MonthAligned [exQ1] := by unfold MonthAligned; decide
 
 /-- a non-trivial `UniformShapes` instance: two slices, one with 3-sample arrays for `paid_loss` (and a
 scalar premium on one cell only), the other with scalar `paid_loss` — one shape per field WITHIN a slice -/
